@@ -189,16 +189,23 @@ Fixpoint search_from (s : str) (off : nat) : option (nat * nat * nat) :=
             end
   end.
 
-(* _get_tag_name: (None | Some name, index) *)
-Definition get_tag_name (row : str) : option str * Z :=
-  if contains s_extend_here row then (Some [], 0%Z)
+(* _get_tag_name: (None | Some name, index).
+   [fixed] = false: the code before the repair of finding C05-F3 (the words 'extend here' anywhere
+   in the row reject the row); [fixed] = true: the repaired code looks for the words in the name part
+   (group 2) only, and in the whole row when the row does not have the shape of a node line. *)
+Definition get_tag_name (fixed : bool) (row : str) : option str * Z :=
+  if negb fixed && contains s_extend_here row then (Some [], 0%Z)
   else
     let row' := remove_all s_zw row in
     match search_from row' 0 with
     | Some (st, l, idx) =>
-        let tag_name := strip (sub row' st (st + l)) in
-        if nonempty tag_name then (Some tag_name, Z.of_nat idx) else (None, 0%Z)
-    | None => (None, 0%Z)
+        let name_part := sub row' st (st + l) in
+        if fixed && contains s_extend_here name_part then (Some [], 0%Z)
+        else
+          let tag_name := strip name_part in
+          if nonempty tag_name then (Some tag_name, Z.of_nat idx) else (None, 0%Z)
+    | None =>
+        if fixed && contains s_extend_here row' then (Some [], 0%Z) else (None, 0%Z)
     end.
 
 (* Python index normalisation for slices *)
@@ -231,9 +238,9 @@ Record parsed : Set := mkParsed {
 
 (* _create_entry without the schema object: (fatal recorded, entry fields);
    an uncaught exception (TypeError from a boolean-then-valued duplicate) is Exn *)
-Definition create_entry (row : str) (full_tag_name : option str)
+Definition create_entry (fixed : bool) (row : str) (full_tag_name : option str)
   : res (bool * option (str * attrs * option str)) :=
-  let '(node_name, index) := get_tag_name row in
+  let '(node_name, index) := get_tag_name fixed row in
   match node_name with
   | None => Ok (true, None)
   | Some nm =>
@@ -269,7 +276,7 @@ Definition create_entry (row : str) (full_tag_name : option str)
 (* one line of the schema section: line.strip(), nowiki removal, then the row part of
    _read_schema with no parents.  Ok None = the line is dropped (blank).  A recorded
    fatal error surfaces as HedFileError at the end of the load. *)
-Definition read_tag_line (line : str) : res (option parsed) :=
+Definition read_tag_line (fixed : bool) (line : str) : res (option parsed) :=
   let '(fatal0, row) := remove_nowiki_tag_from_line (strip line) in
   match row with
   | [] => if fatal0 then Exn HedFileError else Ok None
@@ -277,10 +284,10 @@ Definition read_tag_line (line : str) : res (option parsed) :=
       let root := startswith s_root row in
       let* level := if root then Ok 0 else get_tag_level row in
       (* _create_tag_entry *)
-      let '(tag_name, _) := get_tag_name row in
+      let '(tag_name, _) := get_tag_name fixed row in
       match tag_name with
       | Some (c :: nm) =>
-          let* r := create_entry row (Some (c :: nm)) in
+          let* r := create_entry fixed row (Some (c :: nm)) in
           match r with
           | (false, Some (n, a, d)) =>
               if fatal0 then Exn HedFileError else Ok (Some (mkParsed root level n a d))
@@ -292,13 +299,13 @@ Definition read_tag_line (line : str) : res (option parsed) :=
 
 (* one line of a unit class / unit / modifier / value class / attribute / property
    section: _read_section / _read_unit_classes *)
-Definition read_entry_line (line : str) : res (option parsed) :=
+Definition read_entry_line (fixed : bool) (line : str) : res (option parsed) :=
   let '(fatal0, row) := remove_nowiki_tag_from_line (strip line) in
   match row with
   | [] => if fatal0 then Exn HedFileError else Ok None
   | _ =>
       let* level := get_tag_level row in
-      let* r := create_entry row None in
+      let* r := create_entry fixed row None in
       match r with
       | (false, Some (n, a, d)) =>
           if fatal0 then Exn HedFileError else Ok (Some (mkParsed false level n a d))
@@ -354,6 +361,23 @@ Definition desc_ok (d : option str) : bool :=
 Definition wiki_attr_ok (a : attrs) : bool :=
   attr_ok a && wiki_text_ok (format_tag_attributes (fun _ => false) a).
 
-(* the reader refuses any row containing these two literals *)
-Definition row_free_of_reserved (line : str) : bool :=
-  negb (contains s_extend_here (remove_nowiki line)) && negb (contains s_zw (remove_nowiki line)).
+(* reserved literals of the reader.  Before the repair of C05-F3 a row containing 'extend here'
+   anywhere is refused; after it only a NAME containing the words is.  The zero-width-space entity is
+   deleted from the row before the name expression runs (the proofs assume it is absent). *)
+Definition row_free_of_reserved (fixed : bool) (n line : str) : bool :=
+  (if fixed then negb (contains s_extend_here n)
+   else negb (contains s_extend_here (remove_nowiki line)))
+  && negb (contains s_zw (remove_nowiki line)).
+
+(* xml2schema._parse_node, description part: the element text ('' = no description element).
+   [fixed] = true is the repair of C05-F1: outer white space is dropped as the MediaWiki and TSV
+   readers do, and a description of white space only counts as absent. *)
+Definition xml_read_desc (fixed : bool) (text : str) : option str :=
+  match text with
+  | [] => None
+  | _ => if fixed then (match strip text with [] => None | s => Some s end) else Some text
+  end.
+
+(* what may stand inside [..]: DescOK without the requirements the repaired XML reader guarantees *)
+Definition desc_text_ok (d : option str) : bool :=
+  match d with None => true | Some s => wiki_text_ok s end.
